@@ -488,6 +488,18 @@ func checkStringAccumulation(c *Ctx, p *core.Prog, fns []*ssa.Function) {
 					// e = strings.ReplaceAll(phi, k, k') with k' a proper prefix (or suffix) of k, repeated while the string
 					// still contains k: each pass copies the whole string and can take out as little as one character of a
 					// run ("httpsss...s"), so the loop is quadratic in the length of the word
+					// e = f(phi) for a whole-string transformation of the standard library that can shorten its input by a fixed
+					// amount per pass (html.UnescapeString on "&amp;amp;amp;..."): repeated until nothing changes
+					if call, ok := e.(*ssa.Call); ok {
+						if n := core.StaticCalleeName(&call.Call); n == "html.UnescapeString" || n == "net/url.QueryUnescape" || n == "net/url.PathUnescape" {
+							for _, a := range call.Call.Args {
+								if a == ssa.Value(phi) {
+									c.R.Fail("R10.6", core.ShortFn(fn)+": a string is rewritten to a fixed point by whole-string passes of "+n, p.Pos(e.Pos()),
+										"a word of nested references (\"&amp;amp;amp;...\") loses one level per pass and every pass copies the whole word: quadratic in the length of a word, a megabyte-long word makes Normalize, AddContent and Match take minutes")
+								}
+							}
+						}
+					}
 					if call, ok := e.(*ssa.Call); ok {
 						if n := core.StaticCalleeName(&call.Call); (n == "strings.ReplaceAll" || n == "strings.Replace") && call.Call.Args[0] == ssa.Value(phi) {
 							from, ok1 := core.ConstString(call.Call.Args[1])
